@@ -440,6 +440,11 @@ func cmdCheck(args []string) int {
 					ex.aborted = fmt.Sprintf("`at %s` matches no call made under a contract of that name (contracts used: %s)", callee, strings.Join(rep.Uses, ", "))
 				}
 			}
+			for _, key := range sortedKeys(fc.AccessAsserts) {
+				if !ex.accessUsed[key] {
+					ex.aborted = fmt.Sprintf("`at %s` matches no access to that field of an object the function did not allocate", key)
+				}
+			}
 		}
 		if ex.aborted != "" {
 			rep.Aborted = ex.aborted
